@@ -17,6 +17,13 @@ HARNESSES = [
     Harness('c07_export_result_handle_transferred_not_dropped', 'export.new_resource_transferred_reached_through_handles_destroyed_once', G + 'type_resource: Counter::{new,get,dtor,type_guard}, CounterBorrow::{lift,get}, constructor/give trampolines, ResourceRep for Option<T> (crates/guest-rust/src/resource.rs)'),
     Harness('c07_export_into_inner_moves_value_out_destroyed_once', 'export.into_inner_moves_value_out_destroyed_once', G + 'Counter::{into_inner, dtor}, ResourceRep::rep_take for Option<T> (crates/guest-rust/src/resource.rs)'),
     Harness('c07_import_list_of_owned_handles_transferred_not_dropped', 'import.list_of_owned_handles_transferred_not_dropped', G + 'import glue for list<own<thing>> (is_list_canonical / ListLower / HandleLower own, crates/rust/src/interface.rs, bindgen.rs)', bounded='lists of one or two handles'),
+    Harness('c07_import_owned_handle_in_record_transferred_not_dropped', 'import.owned_handle_in_record_transferred_not_dropped', G + 'import glue for record { own<thing>, u32 } (RecordLower + HandleLower own)'),
+    Harness('c07_import_owned_handle_in_option_and_result_dropped_once', 'import.owned_handle_in_option_and_result_dropped_once', G + 'import glue for option<own<thing>> / result<own<thing>, u32> results (OptionLift / ResultLift + HandleLift own)'),
+    Harness('c07_import_borrowed_handle_in_tuple_never_dropped_by_the_call', 'import.borrowed_handle_in_tuple_never_dropped_by_call', G + 'import glue for tuple<borrow<thing>, u32>'),
+    Harness('c07_export_lent_borrow_of_imported_resource_released_once_after_the_call', 'export.lent_borrow_of_imported_resource_released_once_after_call', G + 'export trampoline for borrow<imported resource> (handle_decls scoping: the temporary owner lives until the user function returned)'),
+    Harness('c07_export_owned_imported_resource_dropped_once_by_its_owner', 'export.owned_imported_resource_dropped_once_by_owner', G + 'export trampoline for own<imported resource>'),
+    Harness('c07_export_owned_handle_in_option_parameter', 'export.owned_handle_in_option_parameter', G + 'export trampoline for option<own<counter>>'),
+    Harness('c07_export_borrow_of_exported_resource_through_alias_touches_no_handle', 'export.borrow_of_exported_resource_through_alias_touches_no_handle', G + 'export trampolines of a second exported interface that uses the exported resource through an alias (is_exported_resource / HandleLift borrow)'),
 ]
 
 
@@ -29,8 +36,36 @@ def run(rep, tier):
                'rule R1: the generated native import stand-ins `{ unreachable!() }` call the mock host (the only edit to generated text)',
                '64-bit verification target: the two export trampolines that receive a borrowed exported resource as a core i32 truncate the '
                'pointer to 32 bits (identity on wasm32 only), so the generated CounterBorrow/Counter accessors are driven directly instead',
-               'not covered: async functions, handles nested in records/options (a list of owned handles passed to an import is covered), futures/streams/error-context handles, the `borrow` '
-               'of an imported resource passed to an export (handle_decls scoping)')
+               'not covered: async functions, futures/streams/error-context handles, handles nested more than one level deep',
+               'a borrow of an IMPORTED resource lent to an export is released by the bindings exactly once after the user function returned: that is what '
+               'CanonicalABI.md requires of the callee (exit_call traps on an outstanding lent handle); the property\'s "borrowed handles are never '
+               'dropped by the guest" is read as: never by the user, never early, never twice')
     d = rustgen.generate(rep, 'rustgen_res', mock=True)
+    # text obligation, decided before anything is compiled: a borrow of an EXPORTED resource - by whatever name the function's interface
+    # reaches it - is typed as the generated `<R>Borrow<'_>` (the representation), never as `&<R>` (a handle-owning value, which the
+    # trampoline would have to fabricate from the pointer and drop afterwards)
+    import re
+    from vlib.common import Obligation
+    text = open(os.path.join(d, 'src/probe.rs')).read()
+    ob = Obligation('export.borrow_of_exported_resource_is_typed_as_its_representation', G + 'trait methods generated for exp.look, exp2.look-again, exp2.maybe-look '
+                    '(crates/rust/src/interface.rs is_exported_resource / print_ty for borrow handles)', 'property', 'text-spec')
+    want = {'look': r"c: CounterBorrow<'_>", 'look_again': r"c: CounterBorrow<'_>", 'maybe_look': r"c: ::core::option::Option<CounterBorrow<'_>>"}
+    bad, missing = [], []
+    for fn, ty in want.items():
+        m = re.search(r'\bfn %s\(([^)]*)\)\s*->\s*u32;' % fn, text)
+        if not m:
+            missing.append(fn)
+        elif re.sub(r'\s+', '', m.group(1)).rstrip(',') != re.sub(r'\s+', '', ty):
+            bad.append('%s(%s), expected (%s)' % (fn, m.group(1).strip(), ty))
+    if missing:
+        ob.status, ob.detail = 'undecided', 'generated trait methods not found: %s' % missing
+    elif bad:
+        ob.status = 'failed'
+        ob.detail = 'a borrow of an exported resource is not typed as its representation: ' + '; '.join(bad)
+        ob.replay = {'input': 'kani/rustgen_res/probe.wit', 'function': 'crates/rust/src/interface.rs (type printed for borrow<exported resource>)',
+                     'how': 'run the real generator (`wit-bindgen rust kani/rustgen_res/probe.wit`) and read the Guest trait methods in the output', 'observed': bad}
+    else:
+        ob.status = 'discharged'
+    rep.add(ob)
     kani.run_harnesses(rep, d, HARNESSES, None, 'kani-rustgen', timeout_each=600, harness_file=os.path.join(d, 'src/lib.rs'),
                        playback_features='values-only', guard=False)
